@@ -499,6 +499,68 @@ fn tail_surgery_case(t: &mut Tape, rec: &mut Rec) -> CaseResult {
     Ok(())
 }
 
+
+// ---------------------------------------------------------------------------------------------
+// SEIPDv1: every payload length around the decryptor's 8 KiB refills x tail tampering x read modes
+// ---------------------------------------------------------------------------------------------
+
+const EDGE_WINDOW: usize = 100;
+const EDGE_MUTS: usize = 4;
+const EDGE_MODES: [Mode; 2] = [Mode::Streaming, Mode::Default];
+
+fn v1_edge_count(ks: usize) -> u64 {
+    (ks * EDGE_WINDOW * EDGE_MUTS * EDGE_MODES.len()) as u64
+}
+
+fn v1_buffer_edge_case(t: &mut Tape, rec: &mut Rec) -> CaseResult {
+    let mut i = t.u64() as usize;
+    let mut take = |n: usize| {
+        let r = i % n;
+        i /= n;
+        r
+    };
+    let mode = EDGE_MODES[take(EDGE_MODES.len())];
+    let mutation = take(EDGE_MUTS);
+    let off = take(EDGE_WINDOW);
+    let k = 1 + i;
+    // payload lengths 8192*k - 70 .. 8192*k + 29: the encrypted stream adds the literal header,
+    // the 18-octet prefix and the 22-octet MDC, so this window covers every alignment of its end
+    let len = 8192 * k + off - 70;
+    let mut cfg = MsgConfig::plain();
+    cfg.enc = Enc::V1(SymmetricKeyAlgorithm::AES128);
+    cfg.seed = [(off % 251) as u8; 32];
+    let base = Base::build(cfg, expand(0xED6E + len as u64, len)).map_err(|e| crate::engine::Fail { sig: "C03:base-build-error".into(), detail: e })?;
+    let body = base.body().to_vec();
+    let n = body.len();
+    let mut b = body.clone();
+    let what = match mutation {
+        0 => {
+            b[n - 1] ^= 1;
+            "last MDC octet flipped".to_string()
+        }
+        1 => {
+            b[n - 21] ^= 0x80;
+            "MDC hash first octet flipped".to_string()
+        }
+        2 => {
+            b[n - 23] ^= 4;
+            "last payload octet flipped".to_string()
+        }
+        _ => {
+            b.truncate(n - 1);
+            "container truncated by one octet".to_string()
+        }
+    };
+    rec.label(format!("v1-edge:{mode:?}"));
+    rec.nontrivial((len, mutation, format!("{mode:?}")));
+    rec.describe(|| format!("SEIPDv1 AES128, payload {len} bytes (body {n} bytes) | {what} | mode {mode:?}"));
+    let bytes = base.reassemble(&b, &[]);
+    let cons = if off % 2 == 0 { Consumer::ReadToEnd } else { Consumer::Fixed(4096) };
+    let a = attempt(&base.cfg, &bytes, &Opener::SessionKey, cons, mode, Sched::whole());
+    judge(rec, &base, &a, mode, &what);
+    Ok(())
+}
+
 /// fixed list of small base messages for the exhaustive scope
 fn small_bases(thorough: bool) -> Vec<Base> {
     let mut v = vec![];
@@ -543,7 +605,7 @@ fn small_bases(thorough: bool) -> Vec<Base> {
 }
 
 pub fn run(ctx: &Ctx) {
-    ctx.set_rule("base messages built by rPGP (SEIPDv1 x 11 ciphers, SEIPDv2 x 9 AEAD/cipher pairs x chunk sizes, plaintext lengths around 0..3 chunks / the 8 KiB buffer), SEIPD body extracted and re-framed by the harness' own framer; mutation classes: bit flip, truncation, append inside/after, AEAD chunk drop/dup/swap/rotate/truncation-attack/tag surgery, CFB block surgery, header field substitution (version, cipher, AEAD, chunk size, salt); consumer = read_to_end | fixed | alternating | exact; SEIPDv1 modes default/check-first/streaming; tail-surgery group (enumerated): SEIPDv2 x 3 AEAD modes x chunk 64/128 x encrypted packet stream of k*chunk-1, k*chunk, k*chunk+1 bytes (k = 1..3) x 20 manipulations behind the last genuine chunk (chunk / final-tag duplication, repetition, removal, 1..2*chunk+16 bytes appended inside the packet) x 4 consumers; exhaustive group: every single-bit flip and every truncation offset of the listed small messages; non-trivial = container differs from the original; distinct = (config, plaintext length, mutation)");
+    ctx.set_rule("base messages built by rPGP (SEIPDv1 x 11 ciphers, SEIPDv2 x 9 AEAD/cipher pairs x chunk sizes, plaintext lengths around 0..3 chunks / the 8 KiB buffer), SEIPD body extracted and re-framed by the harness' own framer; mutation classes: bit flip, truncation, append inside/after, AEAD chunk drop/dup/swap/rotate/truncation-attack/tag surgery, CFB block surgery, header field substitution (version, cipher, AEAD, chunk size, salt); consumer = read_to_end | fixed | alternating | exact; SEIPDv1 modes default/check-first/streaming; tail-surgery group (enumerated): SEIPDv2 x 3 AEAD modes x chunk 64/128 x encrypted packet stream of k*chunk-1, k*chunk, k*chunk+1 bytes (k = 1..3) x 20 manipulations behind the last genuine chunk (chunk / final-tag duplication, repetition, removal, 1..2*chunk+16 bytes appended inside the packet) x 4 consumers; SEIPDv1 buffer-edge group (enumerated): every payload length 8192k-70..8192k+29 (k = 1..2, thorough 1..5) x {MDC / last payload octet flip, truncation by one} x {streaming, default} read mode; exhaustive group: every single-bit flip and every truncation offset of the listed small messages; non-trivial = container differs from the original; distinct = (config, plaintext length, mutation)");
     ctx.assume("positive control: the unmodified, re-framed message round-trips (otherwise the case fails as control failure)");
     ctx.assume("forgery probability of the primitives (2^-128 tags, SHA-1 MDC) is not reachable by the generator");
     zoo::warm(&[Kind::Ed25519V4, Kind::Ed25519V6]);
@@ -551,6 +613,8 @@ pub fn run(ctx: &Ctx) {
     let n = ctx.tier.pick(20_000u64, 400_000);
     ctx.group("sampled-mutations", Source::Random { n, tape_len: 200 }, sampled_case);
     ctx.group("seipdv2-tail-surgery-at-chunk-boundaries", Source::Indexed { count: tail_count() }, tail_surgery_case);
+    let ks = ctx.tier.pick(2usize, 5);
+    ctx.group("seipdv1-tail-tampering-at-buffer-edges", Source::Indexed { count: v1_edge_count(ks) }, v1_buffer_edge_case);
 
     let bases = small_bases(thorough);
     let offsets: Vec<u64> = {
